@@ -364,7 +364,8 @@ def program_source(prog, uid="") -> str:
         decl = f"@utype.parse\ndef A({params}):\n    return {ret}\n"
         if prog.get("local"):
             decl = "def _make():\n" + "".join("    " + l + "\n" for l in decl.splitlines()) + "    return A\nA = _make()\n"
-    targets = "".join(f"class {n}{uid}(Schema):\n    x: int\n" for n in TARGET_NAMES)
+    used = sorted({f["to"] for f in fields if f.get("to") in TARGET_NAMES}) or TARGET_NAMES[:1]
+    targets = "".join(f"class {n}{uid}(Schema):\n    x: int\n" for n in used)
     return imp + decl + targets
 
 
@@ -435,13 +436,24 @@ def run_alone(prog, call):
         drop(m)
 
 
+_REF: dict = {}
+
+
 def impl(case):
     """Run one (program, schedule) on the real utype."""
     if case.get("op") == "registry":
         return impl_registry(case)
     prog, threads = case["prog"], case["threads"]
-    seq_outs, seq_post = run_sequential(prog, threads)
-    alone = [[run_alone(prog, c) for c in calls] for calls in threads]
+    # the sequential references depend on the declaration and the calls only: computed once per worker
+    mk = json.dumps([prog, threads], sort_keys=True)
+    ref = _REF.get(mk)
+    if ref is None:
+        if len(_REF) > 500:
+            _REF.clear()
+        seq_outs, seq_post = run_sequential(prog, threads)
+        alone = [[run_alone(prog, c) for c in calls] for calls in threads]
+        ref = _REF[mk] = (seq_outs, seq_post, alone)
+    seq_outs, seq_post, alone = ref
     m = build(prog)
     try:
         s = Sched(case["sched"], case.get("mode", "vis"), case.get("points"))
@@ -818,6 +830,8 @@ class C20(Check):
                     two = [s for s in scheds if len(s) > 2]
                     rng.shuffle(two)
                     scheds = one + two[:200]
+                if tier == "thorough":
+                    scheds += [random_schedule(rng, L, nt, 3) for _ in range(400)]
             else:
                 scheds = []
                 if nt == 2:
